@@ -106,6 +106,22 @@ static void op_mpf_sub_exact(int argc, char **argv)
   outl(SIZ(r)); outl(EXP(r)); out_limbs(PTR(r), ABSIZ(r));
   mpf_clear(r); mpf_clear(u); mpf_clear(v);
 }
+/* mpf_div_exact prec um ue vm ve | mpf_mul_ui_exact prec um ue k | mpf_div_ui_exact prec um ue k : bit-exact comparison */
+static void f_exact3(int which, char **argv)
+{
+  mp_size_t prec = arg_l(argv[1]); mpf_t r, u, v;
+  set_raw(u, argv[2], arg_l(argv[3]));
+  mpf_init2(r, (unsigned long)(prec - 1) * GMP_NUMB_BITS);
+  if (PREC(r) != prec) outs("PREC-SETUP");
+  if (which == 0) { set_raw(v, argv[4], arg_l(argv[5])); mpf_div(r, u, v); mpf_clear(v); }
+  else if (which == 1) mpf_mul_ui(r, u, arg_ul(argv[4]));
+  else mpf_div_ui(r, u, arg_ul(argv[4]));
+  outl(SIZ(r)); outl(EXP(r)); out_limbs(PTR(r), ABSIZ(r));
+  mpf_clear(r); mpf_clear(u);
+}
+static void op_mpf_div_exact(int argc, char **argv) { (void)argc; f_exact3(0, argv); }
+static void op_mpf_mul_ui_exact(int argc, char **argv) { (void)argc; f_exact3(1, argv); }
+static void op_mpf_div_ui_exact(int argc, char **argv) { (void)argc; f_exact3(2, argv); }
 static void op_mpfcheck(int argc, char **argv) { (void)argc; (void)argv; outl(1); }
 /* mpf_get_str base ndigits prec mant exp2 : digit string and exponent */
 static void op_fget_str(int argc, char **argv)
@@ -126,5 +142,5 @@ static void op_fmisc(int argc, char **argv)
   outl(mpf_cmp_ui(a, 0) < 0 ? -1 : mpf_cmp_ui(a, 0) > 0);
   outul(double_to_bits(mpf_get_d(a)));
   mpf_clear(a); }
-const op_t ops_f[] = { {"mpf", op_mpf}, {"mpf_mul", op_mpf_mul}, {"mpf_add_exact", op_mpf_add_exact}, {"mpf_sub_exact", op_mpf_sub_exact}, {"mpfcheck", op_mpfcheck}, {"mpf_get_str", op_fget_str},
+const op_t ops_f[] = { {"mpf", op_mpf}, {"mpf_mul", op_mpf_mul}, {"mpf_add_exact", op_mpf_add_exact}, {"mpf_sub_exact", op_mpf_sub_exact}, {"mpf_div_exact", op_mpf_div_exact}, {"mpf_mul_ui_exact", op_mpf_mul_ui_exact}, {"mpf_div_ui_exact", op_mpf_div_ui_exact}, {"mpfcheck", op_mpfcheck}, {"mpf_get_str", op_fget_str},
                        {"mpf_cmp", op_fcmp}, {"mpf_misc", op_fmisc}, {NULL, NULL} };
